@@ -440,6 +440,9 @@ def monitor_case(ops, obs, which):
                             break
                     if o.get("doff") != o0.get("doff") or o.get("mv") != cfg.get("magic") or o.get("fk") != cfg.get("freelist"):
                         V("C05", "identity-differs", f"after {ops[i].strip()}: doff/mv/fk = {o.get('doff')}/{o.get('mv')}/{o.get('fk')}", i)
+                    if "pol" in o:
+                        for p_ in ("C05", "C09"):
+                            V(p_, "policy-differs-from-file", f"after {ops[i].strip()}: the file records free-list kind {o.get('fk')}, the reopened arena works with {o['pol']}", i)
                     if o.get("ro") != ("1" if ro_mode else "0"):
                         V("C09", "ro-flag", f"{ops[i].strip()}: read_only() = {o.get('ro')}", i)
                 fstate["closed"] = False; fstate["mode"] = mode; fstate["fh_open"] = o.get("fh"); fstate["magic"] = kvs.get("magic"); fstate["remove"] = False; fstate["truncated"] = False
@@ -511,6 +514,8 @@ def monitor_case(ops, obs, which):
                             V("C03", "capacity", f"alloc_aligned<{A},{S}>({N}) capacity {cap}", i)
                         if o.get("am", "0") != "0":
                             V("C03", "addr-align", f"alloc_aligned<{A},{S}>({N}): address misaligned by {o.get('am')} (within the alignment the arena guarantees)", i)
+                            if fstate.get("truncated"):
+                                V("C18", "address-misaligned-after-truncate", f"alloc_aligned<{A},{S}>({N}) after a truncate: the address is {o.get('am')} past a multiple of the alignment the arena was configured to guarantee (the moved memory lost it)", i)
                 else:
                     if op.startswith("alloc_z"):
                         A, S = 1, 0
@@ -528,6 +533,8 @@ def monitor_case(ops, obs, which):
                             V("C03", "offset-align", f"alloc<{A},{S}> offset {off}", i)
                         if o.get("am", "0") != "0":
                             V("C03", "addr-align", f"alloc<{A},{S}>: address misaligned by {o.get('am')} (within the alignment the arena guarantees)", i)
+                            if fstate.get("truncated"):
+                                V("C18", "address-misaligned-after-truncate", f"alloc<{A},{S}> after a truncate: the address is {o.get('am')} past a multiple of the alignment the arena was configured to guarantee (the moved memory lost it)", i)
                 if "pq" in o:
                     for p_ in ("C03", "C04", "C01"):
                         V(p_, "pointer-not-at-offset", f"{ops[i].strip()}: the handle reports offset {off} but its pointer is at arena offset {o['pq']}", i)
@@ -831,6 +838,10 @@ def monitor_case(ops, obs, which):
         # ---- C13 drop counter
         if op in ("drop", "detach", "dealloc") and "dc" in o:
             pass
+        # ---- C20 / C10: the minimum segment size in force is the one the user set last (writable arenas)
+        if op == "set_minseg" and r == "ok" and "ms" in o and not (fstate.get("ro_state") and not fstate["closed"]) and t[1].isdigit() and int(o["ms"]) != int(t[1]):
+            for p_ in ("C20", "C10"):
+                V(p_, "minseg-not-set", f"{ops[i].strip()}: minimum_segment_size() is {o['ms']} afterwards (it was {prev.get('ms')}): releases are judged against a minimum the user did not set", i)
         # ---- C20 monotone (below 2^32)
         if op not in ("clear", "inc_discarded", "reopen") and di < pdi and pdi + 0 < U32 - (1 << 20):
             V("C20", "decrease", f"discarded decreased {pdi} -> {di} at {ops[i].strip()}", i)
